@@ -488,10 +488,9 @@ impl Scenario for C11Threads {
             if let Input::Gen(set) = inp {
                 for mi in 0..set.modules.len() {
                     for ai in (0..set.modules[mi].assigns.len()).rev() {
+                        let Some(s2) = set.without_assign(mi, ai) else { continue };
                         let mut q = p.clone();
-                        if let Input::Gen(s) = &mut q.inputs[ii] {
-                            s.modules[mi].assigns.remove(ai);
-                        }
+                        q.inputs[ii] = Input::Gen(s2);
                         for h in &mut q.ops {
                             for op in h {
                                 if op.input == ii {
